@@ -261,17 +261,7 @@ func DefCallerMethod(qualifier string, caller slip.Caller, fd *slip.FuncDoc) *sl
 			aux,
 		)
 	}
-	var key []byte
-	for i, da := range fd.Args {
-		if da.Name[0] == '&' {
-			break
-		}
-		if 0 < i {
-			key = append(key, '|')
-		}
-		key = append(key, da.Type...)
-	}
-	return addMethodCaller(aux, fd.Name, qualifier, string(key), caller, fd)
+	return addMethodCaller(aux, fd.Name, qualifier, docMethKey(fd), caller, fd)
 }
 
 func defGenericMethod(s *slip.Scope, fname slip.Symbol, args slip.List, aux *Aux, depth int) slip.Object {
@@ -409,6 +399,28 @@ func newGfAux(s *slip.Scope, fname slip.Symbol, ll slip.List, depth int) *Aux {
 		aux,
 	)
 	return aux
+}
+
+// docMethKey forms the method table key from the required arguments of a
+// method's documentation. An argument without a type was written as a bare
+// symbol which is the same as being specialized on t so the key built here
+// matches the one formMethKey builds from the specialized lambda list.
+func docMethKey(fd *slip.FuncDoc) string {
+	var key []byte
+	for i, da := range fd.Args {
+		if da.Name[0] == '&' {
+			break
+		}
+		if 0 < i {
+			key = append(key, '|')
+		}
+		if len(da.Type) == 0 {
+			key = append(key, 't')
+		} else {
+			key = append(key, da.Type...)
+		}
+	}
+	return string(key)
 }
 
 func formMethKey(ll slip.List) string {
